@@ -41,6 +41,16 @@ def check(repo, col, tier):
     from . import c01_solver, c10, c01
     col.rule("R-C02-derived", "coupling conductances use the same geometry as area and capacitance", 1)
     c10.derived_after_overrides(repo, col, "R-C02-derived")
+    # charge balance: every current (membrane, stimulus, synaptic) enters the voltage equation divided by the capacitance of
+    # its compartment -- an injected charge of Q changes the membrane charge by Q, whatever cm is (shared with C01/C08/C09/C15)
+    col.rule("R-C02-charge", "all currents enter the voltage equation per unit capacitance", 2)
+    from . import c15 as _c15
+    _c15._capacitance(repo, col, "R-C02-charge")
+    # the synaptic current density is charge per area of the compartment that RECEIVES it (shared with C09/C19)
+    from . import c09 as _c09, idx as _idx
+    col.rule("R-C02-synapse", "synaptic currents are converted with the geometry of the postsynaptic compartment and added there", 6)
+    _cl = _idx.compute_slots(repo, col, "R-C02-synapse", emit=())
+    _c09._roles(repo, col, _cl, "_synapse_currents", "R-C02-synapse", "R-C02-synapse")
     col.rule("R-C02-layout", "every compartment's row is the one its neighbours' couplings point to (padded layout)", 8)
     c01._layout(repo, col, "R-C02-layout")
     col.rule("R-C02-rowsum", "coupling part of the implicit matrices has zero row sums (contribution tables)", 10)
